@@ -42,7 +42,7 @@ BASES = [
     ["CREATE TABLE t1 (a int PRIMARY KEY, b decimal(10,2));", "ALTER TABLE t1 ADD CONSTRAINT fk FOREIGN KEY (a) REFERENCES p (k);", "CREATE INDEX i ON t1 (b);"],
 ]
 KINDS = ["core_table", "tbl_ml", "tbl_uq", "tbl_ine", "check", "fk_table", "seq", "seq_ml", "type_enum", "type_obj", "domain", "schema", "schema_auth",
-         "db", "tspace", "drop", "hql_ml", "hql", "mysql", "snowflake", "alter_group", "alter_group2", "alter_pk", "set", "mssql", "bigquery"]
+         "db", "tspace", "drop", "hql_ml", "hql", "mysql", "snowflake", "alter_group", "alter_group2", "alter_pk", "set", "mssql", "bigquery", "cross_quoted"]
 
 
 INNER_UNTERMINATED_P = 0.2
@@ -154,6 +154,10 @@ def check_case(ctx, case):
     if case.get("tail") in ("no_newline", "unterminated_no_newline"):
         end = ""
     text = "\n".join(lines) + end
+    if case.get("final_comment_no_newline"):
+        # the plain script ends with its newline; the commented one goes on with ONE comment line that the input ends in (no newline after it)
+        text = "\n".join(lines)
+        end = "\n"
     if inserted:
         ctx.nontrivial_case(digest(text))
     kf = case.get("kf")
@@ -369,6 +373,19 @@ def run_shard(ctx):
         lines = base[:pos] + com + base[pos:]
         check_case(ctx, {"gen": "commented_out_copy", "base": base, "lines": lines, "inserted": com, "styles": ["blockml_copy"]})
         ctx.obs["commented_out_copy_cases"] += 1
+    # a comment as the very last line, the input ending right after it, behind every kind of last statement (a SET line included)
+    for j in range(ctx.budget(160, 3000)):
+        mk = Marker()
+        base = []
+        for q in range(rng.randint(1, 2)):
+            for st in G.gen_group(rng, rng.choice(KINDS), q):
+                base.extend(st.split("\n"))
+        if j % 2:
+            base += rng.choice(["SET search_path = sales;", "SET statement_timeout = 0;", "set hivevar:x=1;"]).split("\n")
+        st = rng.choice(["dash", "hash", "block1"])
+        c = make_comment(rng, st, mk)
+        check_case(ctx, {"gen": "final_comment", "base": base, "lines": base + c, "inserted": c, "styles": [st, "final_line_no_newline"], "final_comment_no_newline": True})
+        ctx.obs["final_comment_without_newline_cases"] += 1
     for case in kf_cases(ctx, ctx.budget(80, 800)):
         check_case(ctx, case)
         ctx.obs["known_finding_class_cases"] += 1
